@@ -13,8 +13,8 @@
   never exhausted (`Err.fuel` is reported by the driver and counted as a disagreement).
 
   The model is of the *repaired* code (fixes/D17_nested_not_str.patch: `not (not a)` keeps its
-  parentheses when printed; fixes/D26_cds_lone_group_str.patch: `cds((a))` keeps the inner
-  parentheses when printed; fixes/D25_alias_self_reference.patch: an alias whose name already
+  parentheses when printed; fixes/D43_cds_lone_group_str.patch: `cds((a))` keeps the inner
+  parentheses when printed; fixes/D42_alias_self_reference.patch: an alias whose name already
   occurs as an identifier inside an alias definition is rejected).
 -/
 import ASV.Model.Rules
@@ -162,7 +162,7 @@ def printCond : Cond → String
       notPrefix neg ++ "minimum(" ++ toString c ++ ", [" ++ ", ".intercalate (sortDedupStr opts) ++ "])"
   | .cds neg subs =>
       let t := printJoin " or " subs
-      -- D26 fix: a lone parenthesised operand keeps its parentheses (`cds(a)` is not valid)
+      -- D43 fix: a lone parenthesised operand keeps its parentheses (`cds(a)` is not valid)
       let t := if isSingleton subs && subs.all Cond.isGroup && !t.startsWith "(" then "(" ++ t ++ ")" else t
       notPrefix neg ++ "cds(" ++ t ++ ")"
   | .group neg subs =>
@@ -684,7 +684,7 @@ def mainLoop : Nat → Cfg → PS → Except Err PS
         let ((name, toks), s) ← parseAlias s
         verifyAliasName cfg s.rules name
         if (s.aliases.lookup name).isSome then .error .value
-        -- D25 fix: the name must not already occur as an identifier inside a definition
+        -- D42 fix: the name must not already occur as an identifier inside a definition
         else if usesIdentifier name toks || s.aliases.any (fun a => usesIdentifier name a.2) then .error .value
         else mainLoop fuel cfg { s with aliases := s.aliases ++ [(name, toks)] }
       else if c.type == .rule then do
